@@ -140,7 +140,12 @@ static void ru_failed_target(const struct optvec *o, struct ru_page *rp, const c
 		snprintf(key, sizeof key, "model:C16:failing-target-reports-success:%s", o->mod);
 		vf_fail(key, "options {%s} page %c (%zu bytes): %s returned success; history of the context: %s", o->cls, rp->tag, rp->ref_n, tname, ru_hist);
 	}
-	if (!lib_ok) { *after_fail = 1; ru_nfail++; vf_count("exports_reported_failed", 1); }
+	if (!lib_ok) {
+		*after_fail = 1; ru_nfail++;
+		vf_count("exports_reported_failed", 1);
+		snprintf(key, sizeof key, "exports_reported_failed_%s", o->mod);
+		vf_count(key, 1);
+	}
 }
 
 /* option change on the used context: every option of the module is set
@@ -316,6 +321,8 @@ static void reuse_module(struct vf_rng *r, const char *mod, struct ru_page *P, i
 			} else {
 				char key[96];
 				vf_count("exports_on_failing_stream", 1);
+				snprintf(key, sizeof key, "exports_on_failing_stream_%s", mod);
+				vf_count(key, 1);
 				vf_count(refused_in_call ? "failing_stream_error_during_export" : "failing_stream_error_at_close", 1);
 				if (!sk.refused) {
 					snprintf(key, sizeof key, "model:C16:targets-differ:%s", mod);
